@@ -14,7 +14,8 @@ PROPERTY_ID = 'C05'
 LEVEL = 'exploration'
 LINES_BASE, LINES_PER_BYTE = 20000, 20000
 NODES_BASE, NODES_PER_BYTE = 1000, 64
-RULE = ('repeat: messages under 300 bytes carrying 24 / 40 / 80 repetitions of a legal name unit plus one illegal character in a '
+RULE = ('deep_valid also holds chains of 4..40 nested variants whose signatures carry two or three complete types (forbidden, '
+        'tolerated by lenient decoders): work must not double per level. repeat: messages under 300 bytes carrying 24 / 40 / 80 repetitions of a legal name unit plus one illegal character in a '
         'header field or body value must be answered within 20 s (the only wall-clock oracle; this tree needs < 1 ms). '
         'copy_work: valid messages with 300 / 3000 small containers decoded from a bytes subclass that counts the bytes '
         'slicing copies (work inside C primitives, which the line budget cannot see): at most 8x the message length. '
@@ -297,6 +298,25 @@ def enum_deep(tier):
                     continue
                 body = b''.join(chunks)
                 raw = R.encode_message(1, 3, {1: '/a', 3: 'M'}, little=little, extra_fields=[(8, 'g', sig)], raw_body=body)
+                yield {'kind': 'raw', 'hex': raw.hex(), 'depth': k}
+    # chains of variants whose signatures hold MORE than one complete type (the specification forbids it, no encoder
+    # writes it, a lenient decoder may tolerate it): consistent all the way down, byte-aligned so that nothing needs padding
+    for k in (4, 10, 16, 22, 28, 40):
+        for shape in ('vy', 'yv', 'vyy', 'vv'):
+            body = b'\x01y\x00\x05'
+            for _ in range(k):
+                if shape == 'vy':
+                    body = b'\x02vy\x00' + body + b'\x07'
+                elif shape == 'yv':
+                    body = b'\x02yv\x00\x07' + body
+                elif shape == 'vyy':
+                    body = b'\x03vyy\x00' + body + b'\x07\x08'
+                else:
+                    body = b'\x02vv\x00' + body + b'\x01y\x00\x09'
+                if len(body) > 4000:
+                    break
+            for little in (True, False):
+                raw = R.encode_message(1, 3, {1: '/a', 3: 'M'}, little=little, extra_fields=[(8, 'g', 'v')], raw_body=body)
                 yield {'kind': 'raw', 'hex': raw.hex(), 'depth': k}
 
 
